@@ -23,7 +23,8 @@ Tracked(ao) == Cardinality({i \in 1..Len(src) : src[i].ao = ao /\ src[i].state =
 Step ==
   CASE E[1] = "call" /\ E[2] = "tpost" ->
          /\ src' = Append(src, [ao |-> E[3], kind |-> E[5], sig |-> E[6], p |-> E[7], n |-> E[8], d |-> E[9], t0 |-> Time,
-                                fired |-> 0, cancelled |-> FALSE, removed |-> FALSE, state |-> "calling"])
+                                fired |-> 0, cancelled |-> FALSE, removed |-> FALSE, halted |-> FALSE, state |-> "calling",
+                                by |-> E[Len(E) - 1], early |-> E[3] \notin stopcalled])
          /\ bad' = Chk(E[4] = Len(src) + 1, "Harness") /\ UNCHANGED <<stopped, stopcalled>>
     [] E[1] = "ret" /\ E[2] = "tpost" ->
          LET i == E[4]
@@ -38,7 +39,7 @@ Step ==
          IN /\ src' = [src EXCEPT ![i].fired = @ + 1]
             /\ bad' = Chk(s.state # "rejected", "RejectedFired")                                                     \* C31
                    \cup Chk(~s.cancelled, "FiredAfterCancel")                                                        \* C11
-                   \cup Chk(s.ao \notin stopped, "FiredAfterStop")                                                  \* C12
+                   \cup Chk(~s.halted, "FiredAfterStop")        \* C12: a source that existed when stop() returned
                    \cup Chk(s.n = 0 \/ s.fired < s.n, "TooManyFires")                                               \* C10
                    \cup Chk(Time = s.t0 + s.p * (s.fired + s.d), "WrongTime")
                    \cup Chk(E[5] = (IF s.kind = "fifo" THEN "append" ELSE "appendleft"), "WrongEnd")
@@ -54,7 +55,11 @@ Step ==
     [] E[1] = "call" /\ E[2] = "stop" -> stopcalled' = stopcalled \cup {E[3]} /\ bad' = {} /\ UNCHANGED <<src, stopped>>
     [] E[1] = "ret" /\ E[2] = "stop" ->
          /\ stopped' = stopped \cup {E[3]}
-         /\ src' = [i \in 1..Len(src) |-> IF src[i].ao = E[3] THEN [src[i] EXCEPT !.cancelled = TRUE, !.removed = TRUE] ELSE src[i]]
+         (* stop() owes the cancellation of every source started before it was called, and of those the object's own  *)
+         (* handlers started before its thread ended (stop waits for the thread); a post made by ANOTHER thread while   *)
+         (* stop() runs may be ordered after it                                                                       *)
+         /\ src' = [i \in 1..Len(src) |-> IF src[i].ao = E[3] /\ src[i].state = "accepted" /\ (src[i].early \/ src[i].by = "handler")
+                                           THEN [src[i] EXCEPT !.halted = TRUE, !.removed = TRUE] ELSE src[i]]
          /\ bad' = {} /\ UNCHANGED stopcalled
     [] E[1] = "disp" -> bad' = Chk(E[2] \notin stopped, "DispatchAfterStop") /\ UNCHANGED <<src, stopped, stopcalled>>   \* C12
     [] OTHER -> bad' = {} /\ UNCHANGED <<src, stopped, stopcalled>>
@@ -62,7 +67,7 @@ Step ==
 (* what a source that was left alone must have done by the horizon H *)
 Due(s, H) == LET c == IF H < s.t0 + s.p * s.d THEN 0 ELSE ((H - s.t0 - s.p * s.d) \div s.p) + 1
              IN IF s.n = 0 THEN c ELSE IF c < s.n THEN c ELSE s.n
-Alone(s) == s.state = "accepted" /\ ~s.cancelled /\ s.ao \notin stopcalled
+Alone(s) == s.state = "accepted" /\ ~s.cancelled /\ ~s.halted /\ s.ao \notin stopcalled
 Final ==
        Chk(T.end.outcome # "bound", "NoProgress") \cup Chk(T.end.outcome # "error", "Error")
   \cup Chk(T.end.outcome # "quiescent" \/ T.end.drivers_done, "Hang")
